@@ -13,12 +13,12 @@ pub fn run(run: &mut Run) {
     let thorough = run.thorough();
     let mmax: u32 = if thorough { 12 } else { 9 };
     run.rule = format!(
-        "base histories (state changes separated by intervals T = m*u, u in {{1/512, 1/64, 1/8}} s, m <= {mmax}) on pool and \
+        "base histories (state changes separated by intervals T = m*u, u in {{1/512, 1/64, 1/8, 1}} s, m <= {mmax}; in a third of them every state first lives for 2^10..2^18 s and the interval is also delivered in quarter units) on pool and \
         random animator configurations; every interval is replaced by EVERY composition of m into 1..m parts (2^(m-1) \
         schedules), also with zero-length advances inserted at every position; values at each transition point and at \
         the end, is_ended and current_state must be bit-identical to the single-step run; advance(0) must change nothing; \
         second family: arbitrary f32 splits a+b (and 3-way splits) of arbitrary T compared against the envelope of \
-        single-step runs at T-d, T, T+d (d = #steps*(1ns + ulp32 T)); non-trivial = interval delivered in >= 2 steps on an \
+        single-step runs at T and its f32 neighbours up to +-2 max(ulp32 T, #steps*(1ns + ulp32 T)); non-trivial = interval delivered in >= 2 steps on an \
         animated state; distinct = (composition length, contains zero step, interval crosses delay / cycle wrap / end, \
         configuration kind)"
     );
@@ -100,9 +100,17 @@ fn compositions(m: u32) -> Vec<Vec<u32>> {
 
 fn exact_case<S: Shape>(spec: &AnimSpec, r: &mut Rng, acc: &mut Acc, index: u64, mmax: u32) {
     let n_seg = 2 + r.usize(3);
-    let u = *r.pick(&[1.0f32 / 512.0, 1.0 / 64.0, 1.0 / 8.0, 1.0 / 8.0]);
+    let u = *r.pick(&[1.0f32 / 512.0, 1.0 / 64.0, 1.0 / 8.0, 1.0 / 8.0, 1.0]);
     let base: Vec<(usize, u32)> = (0..n_seg).map(|_| (r.usize(5), 2 + r.below(mmax as u64 - 1) as u32)).collect();
-    let reference_segs: Vec<(usize, Vec<f32>)> = base.iter().map(|(s, m)| (*s, vec![*m as f32 * u])).collect();
+    // long-lived states: one third of the histories first spend a huge (dyadic, exactly representable)
+    // time in each state, so that the accumulated time has few spare low-order bits in f32; the total
+    // big + m*u stays exactly representable in f32 (u is raised to the f32 resolution at `big`).
+    let big: f32 = if r.chance(1, 3) { (1u32 << (10 + r.below(9))) as f32 } else { 0.0 };
+    let u = if big > 0.0 { u.max(big / 4_194_304.0).max(1.0 / 128.0) } else { u };
+    let reference_segs: Vec<(usize, Vec<f32>)> = base
+        .iter()
+        .map(|(s, m)| (*s, if big > 0.0 { vec![big, *m as f32 * u] } else { vec![*m as f32 * u] }))
+        .collect();
     let case = |segs: &[(usize, Vec<f32>)], what: &str| {
         case_json(STREAM_EXACT, index, vec![
             ("shape", J::s(S::NAME)), ("animator", spec.json()), ("unit_seconds", J::F(u as f64)),
@@ -127,11 +135,19 @@ fn exact_case<S: Shape>(spec: &AnimSpec, r: &mut Rng, acc: &mut Acc, index: u64,
                 }
                 let mut segs = reference_segs.clone();
                 let mut steps: Vec<f32> = Vec::new();
+                if big > 0.0 {
+                    steps.push(big);
+                }
+                // when the state is long-lived the interval is additionally delivered in quarter units
+                // (each exactly representable, but not their running sum in f32 arithmetic)
+                let sub = if big > 0.0 && ci % 2 == 1 { 4 } else { 1 };
                 for p in parts {
                     if zeros {
                         steps.push(0.0);
                     }
-                    steps.push(*p as f32 * u);
+                    for _ in 0..sub {
+                        steps.push(*p as f32 * u / sub as f32);
+                    }
                 }
                 if zeros {
                     steps.push(0.0);
@@ -161,7 +177,7 @@ fn exact_case<S: Shape>(spec: &AnimSpec, r: &mut Rng, acc: &mut Acc, index: u64,
                     let total = spec.total(base[si].0);
                     let tt = (*m as f32 * u) as f64;
                     let cross = if tt >= total { "crosses-end" } else if spec.states[base[si].0].iter().any(|t| t.delay > 0.0 && (t.delay as f64) < tt) { "crosses-delay" } else if spec.states[base[si].0].iter().any(|t| (t.cycle as f64) < tt) { "crosses-cycle" } else { "inside" };
-                    acc.sig(format!("parts{}|zeros={zeros}|{cross}|{}", parts.len().min(6), spec.states[base[si].0][0].kind_name()));
+                    acc.sig(format!("parts{}|zeros={zeros}|{cross}|{}|long-lived={}", parts.len().min(6), spec.states[base[si].0][0].kind_name(), big > 0.0));
                 }
             }
         }
@@ -196,7 +212,12 @@ fn inexact_case<S: Shape>(r: &mut Rng, acc: &mut Acc, index: u64) {
         a.advance(tt.max(0.0));
         (a.current_values().clone(), a.is_ended())
     };
-    let refs = [run1((t as f64 - d) as f32), run1(t), run1((t as f64 + d) as f32), run1(sum as f32)];
+    // envelope: single-step runs at the f32 neighbours of T (at least one ulp32(T) and at least d apart)
+    let h = (ulp32(t) as f64).max(d);
+    let refs = [
+        run1((t as f64 - 2.0 * h) as f32), run1((t as f64 - h) as f32), run1(t), run1((t as f64 + h) as f32), run1((t as f64 + 2.0 * h) as f32),
+        run1(sum as f32), run1(next_down(sum as f32)), run1(next_up(sum as f32)),
+    ];
     let mut a = build_anim::<S>(&spec);
     a.set_state(&STATES[st]);
     for p in &parts {
@@ -217,7 +238,7 @@ fn inexact_case<S: Shape>(r: &mut Rng, acc: &mut Acc, index: u64) {
         if g < lo - slack || g > hi + slack {
             acc.violation(
                 "c06:inexact",
-                format!("advance in parts {:?} (sum {sum}) gives field {} = {g}; single-step runs at T-d, T, T+d give {:?}", parts, S::FIELDS[f], vals),
+                format!("advance in parts {:?} (sum {sum}) gives field {} = {g}; single-step runs at T and its f32 neighbours give {:?}", parts, S::FIELDS[f], vals),
                 case_json(STREAM_INEXACT, index, vec![("shape", J::s(S::NAME)), ("animator", spec.json()), ("state", J::U(st as u64)), ("T", J::F(t as f64)), ("parts", J::A(parts.iter().map(|p| J::F(*p as f64)).collect()))]),
             );
             return;
